@@ -213,8 +213,11 @@ class _DbAccesses(ast.NodeVisitor):
             self.generic_visit(node)
 
 
-def db_units():
-    methods = _class_methods("facilities/local_dynamic_map/dictionary_database.py", "DictionaryDataBase")
+def db_units(rel="facilities/local_dynamic_map/dictionary_database.py", cname="DictionaryDataBase"):
+    """units of every store-touching method of the back-end class `cname` (see the comment above); round 5: also used
+    for the TinyDB class (`tinyUnits`: `self.database` is the tinydb handle, whose JSON storage shares ONE file handle
+    between reads and writes - a read that is not in the lock section of the class may see a half-written file)"""
+    methods = _class_methods(rel, cname)
     # methods that touch the store directly, then those calling them (fixed point)
     touching = set()
     for name, m in methods.items():
@@ -320,10 +323,13 @@ def _strs(xs):
 @gen_lean.register(props=["C13", "C14"])
 def gen_ldm_sections():
     units = db_units()
+    tiny = db_units("facilities/local_dynamic_map/tinydb_database.py", "TinyDB")
     attend, notify = notification_steps()
     body = "namespace Generated.LdmSections\n"
     body += "def dbUnits : List (String × List (List String)) := [" + ", ".join(
         f"({_lean_str(m)}, [" + ", ".join(_strs(u) for u in us) + "])" for m, us in units) + "]\n"
+    body += "def tinyUnits : List (String × List (List String)) := [" + ", ".join(
+        f"({_lean_str(m)}, [" + ", ".join(_strs(u) for u in us) + "])" for m, us in tiny) + "]\n"
     body += f"def attendSteps : List String := {_strs(attend)}\n"
     body += f"def notifySteps : List String := {_strs(notify)}\n"
     body += "end Generated.LdmSections\n"
@@ -333,6 +339,8 @@ def gen_ldm_sections():
 if __name__ == "__main__":
     for m, us in db_units():
         print(m, us)
+    for m, us in db_units("facilities/local_dynamic_map/tinydb_database.py", "TinyDB"):
+        print("tiny", m, us)
     a, n = notification_steps()
     print("attend", a)
     print("notify", n)
